@@ -110,7 +110,8 @@ def check(rep, tier, seed):
             jobs.append((["fold", "--fill", f, "--precision", "3"], text_spectrum(sh, ints)))
             meta.append((sh, ints, f))
     res = run_cli_many(jobs)
-    from common import run_model
+    from common import run_model, invocation_variants
+    invocation_variants(rep, "fold:invocation-form", jobs + [(["fold", "-s", f, "-p", "2"], j[1]) for j, (_, _, f) in zip(jobs[:8], meta[:8])], rng, n=10 if tier == "quick" else 80)
     mo = run_model(["fold %s %s %s" % (fmt(sh), fmt(ints), f) for sh, ints, f in meta])
     for (sh, ints, f), (rc, so, se), m, job in zip(meta, res, mo, jobs):
         case = {"argv": ["sfs"] + job[0], "stdin": job[1].decode()}
